@@ -303,6 +303,11 @@ def parallel_add(
     if n_workers is None:
         n_workers = max(1, psutil.cpu_count(logical=False))
 
+    # The items are handed to a spawned process, which requires pickling them; a
+    # generator cannot be pickled, so materialise it first.
+    if not isinstance(items, (list, tuple)):
+        items = list(items)
+
     ctx = get_context("spawn")
     queue = ctx.Queue(3 * n_workers)
     log_queue = ctx.Queue()
